@@ -714,3 +714,27 @@ Proof.
     + replace (0 <=? Z.of_nat j * 64 - clz64 hi) with false by lia. reflexivity.
     + replace ((0 <=? Z.of_nat j * 64 - clz64 hi) && (Z.of_nat j * 64 - clz64 hi <? B)) with true by lia. reflexivity.
 Qed.
+
+(* ---------------- log.rs: checked_log2, log2 ---------------- *)
+From RV.Model Require Log Pow.
+Theorem g_log2_eq bits a :
+  0 <= bits -> bits + 7 < B -> 64 * nlimbs bits < B -> canon bits a ->
+  g_checked_log2 bits (nlimbs bits) a = Log.checked_log2 bits a /\
+  g_log2 bits (nlimbs bits) a = Log.log2 bits a.
+Proof.
+  intros Hb HbB HB Ca. pose proof Ca as (La & Wa & _).
+  assert (E : g_checked_log2 bits (nlimbs bits) a = Log.checked_log2 bits a).
+  { unfold g_checked_log2, Log.checked_log2.
+    change (g_is_zero bits (nlimbs bits) a) with (Pow.is_zero bits a).
+    destruct (Pow.is_zero bits a); [reflexivity|].
+    destruct (g_lz_family_eq bits a Hb HbB HB La Wa) as (_ & _ & Ebl & _). rewrite Ebl.
+    rewrite (PfBits.bit_len_spec bits a Hb Ca). cbn [obind].
+    pose proof (PfBits.bitlen_nonneg (eval a)). pose proof (PfBits.bitlen_le (eval a) bits (canon_range bits a Hb Ca) Hb).
+    unfold Bits.usub, chk64.
+    destruct (Z.ltb_spec (RunC06.bitlen (eval a)) 1).
+    - replace (0 <=? RunC06.bitlen (eval a) - 1) with false by lia. reflexivity.
+    - replace ((0 <=? RunC06.bitlen (eval a) - 1) && (RunC06.bitlen (eval a) - 1 <? B)) with true by lia. reflexivity. }
+  split; [exact E|].
+  unfold g_log2, Log.log2, Log.expect_opt. rewrite E.
+  destruct (Log.checked_log2 bits a) as [[v|]| | | |]; reflexivity.
+Qed.
